@@ -68,6 +68,8 @@ struct Sk<'a> {
     used_hooks: Vec<String>,
     /// immutable `let x = <expr>;` bindings of the function (bound exactly once): x -> tokens of <expr>
     let_alias: HashMap<String, proc_macro2::TokenStream>,
+    /// S14: module-level `const NAME: f64 = <literal>;` of the source file: NAME -> literal text (sign included)
+    consts: HashMap<String, String>,
 }
 
 fn nospace(e: &impl ToTokens) -> String {
@@ -118,6 +120,64 @@ impl<'a> Sk<'a> {
             "bool" => "nd()".into(),
             "usize" => "nd_usize()".into(),
             t => format!("arb::<{t}>()"),
+        }
+    }
+    /// S14: the text of a (possibly negated) float literal expression
+    fn float_literal_text(e: &syn::Expr) -> Option<String> {
+        match e {
+            syn::Expr::Lit(l) => match &l.lit {
+                syn::Lit::Float(f) => Some(f.base10_digits().to_string()),
+                _ => None,
+            },
+            syn::Expr::Unary(u) if matches!(u.op, syn::UnOp::Neg(_)) => Self::float_literal_text(&u.expr).map(|t| if let Some(r) = t.strip_prefix('-') { r.to_string() } else { format!("-{t}") }),
+            syn::Expr::Paren(p) => Self::float_literal_text(&p.expr),
+            syn::Expr::Group(g) => Self::float_literal_text(&g.expr),
+            _ => None,
+        }
+    }
+    /// S14: an abstract float with the exact rational value of a float literal (None: does not fit u64/u64)
+    fn fl_const(text: &str) -> Option<String> {
+        let (neg, t) = match text.strip_prefix('-') { Some(r) => (true, r), None => (false, text) };
+        let r = crate::lift::float_lit(t).ok()?;
+        // float_lit gives `0real`, `<digits>real` or `(<digits>real / 1<zeros>real)`
+        let r = r.trim_start_matches('(').trim_end_matches(')');
+        let (n, d) = match r.split_once(" / ") { Some((a, b)) => (a.trim_end_matches("real"), b.trim_end_matches("real")), None => (r.trim_end_matches("real"), "1") };
+        let n: u64 = n.parse().ok()?;
+        let d: u64 = d.parse().ok()?;
+        Some(format!("fl_rat({neg}, {n}, {d})"))
+    }
+    /// S14: a constant float expression (literals, module constants, + - * / and unary minus over them)
+    fn fl_const_expr(&self, e: &syn::Expr) -> Option<String> {
+        let lit = Self::float_literal_text(e).or_else(|| match e {
+            syn::Expr::Path(p) => p.path.get_ident().and_then(|id| self.consts.get(&id.to_string()).cloned()),
+            _ => None,
+        });
+        if let Some(t) = lit {
+            return Self::fl_const(&t);
+        }
+        match e {
+            syn::Expr::Paren(p) => self.fl_const_expr(&p.expr),
+            syn::Expr::Group(g) => self.fl_const_expr(&g.expr),
+            syn::Expr::Unary(u) if matches!(u.op, syn::UnOp::Neg(_)) => self.fl_const_expr(&u.expr).map(|t| format!("fl_neg({t})")),
+            syn::Expr::Binary(b) => {
+                let f = match b.op {
+                    syn::BinOp::Add(_) => "fl_add", syn::BinOp::Sub(_) => "fl_sub", syn::BinOp::Mul(_) => "fl_mul", syn::BinOp::Div(_) => "fl_div",
+                    _ => return None,
+                };
+                let l = self.fl_const_expr(&b.left)?;
+                let r = self.fl_const_expr(&b.right)?;
+                Some(format!("{f}({l}, {r})"))
+            }
+            _ => None,
+        }
+    }
+    /// S14: value of an erased operand in an abstract-float context
+    fn fl_operand(&mut self, e: &syn::Expr) -> String {
+        if let Some(c) = self.fl_const_expr(e) {
+            self.note("S14", e.span(), "float literal / module constant kept with its exact rational value");
+            c
+        } else {
+            "arb::<Fl>()".to_string()
         }
     }
     /// S10: is this skeleton expression text a value of the abstract float type `Fl`?
@@ -214,7 +274,8 @@ impl<'a> Sk<'a> {
                 let inner = self.val(&r.expr, out)?;
                 Ok(inner.map(|t| {
                     let noncopy_kept = self.kept.get(&t).map(|ty| !["bool", "usize", "Fl"].contains(&ty.as_str())).unwrap_or(false);
-                    if self.is_tracked_root(&r.expr).is_some() || noncopy_kept {
+                    let kept_mut = r.mutability.is_some() && self.kept.contains_key(&t);
+                    if self.is_tracked_root(&r.expr).is_some() || noncopy_kept || kept_mut {
                         format!("&{}{t}", if r.mutability.is_some() { "mut " } else { "" })
                     } else {
                         t
@@ -225,7 +286,7 @@ impl<'a> Sk<'a> {
                 let inner = self.val(&u.expr, out)?;
                 Ok(inner.map(|t| match u.op {
                     syn::UnOp::Not(_) => format!("!{t}"),
-                    syn::UnOp::Neg(_) => format!("-{t}"),
+                    syn::UnOp::Neg(_) => if t.starts_with("fl_") || t.starts_with("arb::<Fl>") || self.kept.get(&t).map(|ty| ty == "Fl").unwrap_or(false) { format!("fl_neg({t})") } else { format!("-{t}") },
                     syn::UnOp::Deref(_) => format!("*{t}"),
                     _ => t,
                 }))
@@ -252,8 +313,8 @@ impl<'a> Sk<'a> {
                         _ => None,
                     };
                     if let Some(f) = f {
-                        let a = if lf { l.unwrap() } else { "arb::<Fl>()".to_string() };
-                        let c = if rf { r.unwrap() } else { "arb::<Fl>()".to_string() };
+                        let a = if lf { l.unwrap() } else { self.fl_operand(&b.left) };
+                        let c = if rf { r.unwrap() } else { self.fl_operand(&b.right) };
                         self.note("S10", e.span(), "float comparison/arithmetic kept over abstract reals");
                         return Ok(Some(format!("{f}({a}, {c})")));
                     }
@@ -630,7 +691,21 @@ impl<'a> Sk<'a> {
                     let last = p.path.segments.last().unwrap().ident.to_string();
                     if p.path.segments.len() == 1 && (last == "Ok" || last == "Some") {
                         let unit_payload = self.returns.contains("<()") || self.returns.contains("<(),");
-                        let v = self.val(&c.args[0], out)?;
+                        // a tuple payload keeps its kept components (`Ok((None, i))`, `Ok((Some(tpd), i))`)
+                        let v = match &c.args[0] {
+                            Expr::Tuple(t) if !t.elems.is_empty() && !unit_payload => {
+                                let mut parts = Vec::new();
+                                for x in &t.elems {
+                                    parts.push(self.retval(x, out)?);
+                                }
+                                if parts.iter().any(|p| p == "__returned__") {
+                                    return Err("construct outside rule list (skeleton): branching expression inside a returned tuple".into());
+                                }
+                                Some(format!("({})", parts.join(", ")))
+                            }
+                            Expr::Path(p) if p.path.is_ident("None") => Some("None".into()),
+                            other => self.val(other, out)?,
+                        };
                         return Ok(match (v, unit_payload) {
                             (_, true) => format!("{last}(())"),
                             (Some(v), false) => format!("{last}({v})"),
@@ -804,7 +879,9 @@ impl<'a> Sk<'a> {
         match p {
             syn::Pat::Ident(i) => {
                 let n = i.ident.to_string();
-                if self.kept.contains_key(&n) || self.tracked.contains_key(&n) || n.chars().next().map(|c| c.is_uppercase()).unwrap_or(false) {
+                if self.kept.contains_key(&n) || self.tracked.contains_key(&n) {
+                    if i.mutability.is_some() { format!("mut {n}") } else { n }
+                } else if n.chars().next().map(|c| c.is_uppercase()).unwrap_or(false) {
                     n
                 } else {
                     "_".into()
@@ -1005,7 +1082,11 @@ impl<'a> Sk<'a> {
                         let m = if id.mutability.is_some() { "mut " } else { "" };
                         if self.kept.contains_key(&name) {
                             let ty = self.kept[&name].clone();
-                            let rhs = v.unwrap_or_else(|| self.nd_of(&ty));
+                            let rhs = match v {
+                                Some(v) => v,
+                                None if ty == "Fl" => self.fl_operand(&init.expr),
+                                None => self.nd_of(&ty),
+                            };
                             out.push(format!("let {m}{name}: {ty} = {rhs}; {}", self.srcnote(l.span())));
                         } else if self.tracked.contains_key(&name) {
                             let ty = self.tracked[&name].clone();
@@ -1099,7 +1180,12 @@ impl<'a> Sk<'a> {
                 };
                 if let Some(n) = lhs_name.filter(|n| self.kept.contains_key(n)) {
                     let ty = self.kept[&n].clone();
-                    out.push(format!("{n} = {}; {}", rhs.unwrap_or_else(|| self.nd_of(&ty)), self.srcnote(e.span())));
+                    let rhs = match rhs {
+                        Some(v) => v,
+                        None if ty == "Fl" => self.fl_operand(&a.right),
+                        None => self.nd_of(&ty),
+                    };
+                    out.push(format!("{n} = {rhs}; {}", self.srcnote(e.span())));
                 } else if let Some(n) = deref_tracked {
                     let ty = self.tracked[&n].clone();
                     out.push(format!("*{n} = {}; {}", rhs.unwrap_or_else(|| format!("arb::<{ty}>()")), self.srcnote(e.span())));
@@ -1548,6 +1634,17 @@ pub fn skeleton_fn(ctx: &mut Ctx, blk: &Block) -> Result<(String, Value), String
         dropped: 0,
         used_hooks: vec![],
         let_alias: HashMap::new(),
+        consts: {
+            let mut m = HashMap::new();
+            for it in &ast.items {
+                if let syn::Item::Const(c) = it {
+                    if let Some(t) = Sk::float_literal_text(&c.expr) {
+                        m.insert(c.ident.to_string(), t);
+                    }
+                }
+            }
+            m
+        },
     };
     // S12: `@callee.k` in a directive or in the contract stands for the root identifier of the k-th argument of the
     // (first) call of `callee` in the function - names follow the data flow, not what a local happens to be called
@@ -1555,10 +1652,13 @@ pub fn skeleton_fn(ctx: &mut Ctx, blk: &Block) -> Result<(String, Value), String
         struct Calls(HashMap<String, Vec<Option<String>>>);
         impl Calls {
             fn args(&mut self, name: String, args: &syn::punctuated::Punctuated<syn::Expr, syn::token::Comma>) {
+                let v: Vec<Option<String>> = args.iter().map(Sk::root_ident).collect();
+                // `callee#n`: the n-th call in source order (n = 0 is also reachable as plain `callee`)
+                let n = (0..).find(|n| !self.0.contains_key(&format!("{name}#{n}"))).unwrap();
+                self.0.insert(format!("{name}#{n}"), v.clone());
                 if self.0.contains_key(&name) {
                     return;
                 }
-                let v = args.iter().map(Sk::root_ident).collect();
                 self.0.insert(name, v);
             }
         }
@@ -1584,7 +1684,7 @@ pub fn skeleton_fn(ctx: &mut Ctx, blk: &Block) -> Result<(String, Value), String
             while let Some(i) = rest.find('@') {
                 out.push_str(&rest[..i]);
                 let tail = &rest[i + 1..];
-                let end = tail.find(|c: char| !(c.is_ascii_alphanumeric() || c == '_' || c == '.')).unwrap_or(tail.len());
+                let end = tail.find(|c: char| !(c.is_ascii_alphanumeric() || c == '_' || c == '.' || c == '#')).unwrap_or(tail.len());
                 let tok = &tail[..end];
                 match tok.split_once('.') {
                     Some((callee, k)) if !callee.is_empty() && k.chars().all(|c| c.is_ascii_digit()) && !k.is_empty() => {
